@@ -19,6 +19,7 @@ Section Sem.
   | E_ret d : exec_stmt Ret d (R KRet d)
   | E_cont d : exec_stmt Cont d (R KCont d)
   | E_brk d : exec_stmt Brk d (R KBrk d)
+  | E_leak d n : 0 <= n -> exec_stmt Leak d (R KNorm (d + n))
   | E_if_l a b d r : exec_blk a d r -> exec_stmt (If2 a b) d r
   | E_if_r a b d r : exec_blk b d r -> exec_stmt (If2 a b) d r
   | E_loop_done b d : exec_stmt (Loop b) d (R KNorm d)
@@ -26,6 +27,7 @@ Section Sem.
                              exec_stmt (Loop b) d' r -> exec_stmt (Loop b) d r
   | E_loop_brk b d d' : exec_blk b d (R KBrk d') -> exec_stmt (Loop b) d (R KNorm d')
   | E_loop_ret b d d' : exec_blk b d (R KRet d') -> exec_stmt (Loop b) d (R KRet d')
+  | E_restore b d k d' : exec_blk b d (R k d') -> exec_stmt (Restore b) d (R k (Z.min d' d))
   with exec_blk : blk -> Z -> res -> Prop :=
   | E_nil d : exec_blk Nil d (R KNorm d)
   | E_cons_go s r d d' x : exec_stmt s d (R KNorm d') -> exec_blk r d' x -> exec_blk (Cons s r) d x
@@ -41,51 +43,81 @@ Section Sem.
   Proof. intros H. unfold check_all in all_ok. rewrite forallb_forall in all_ok.
     apply all_ok. apply nth_In. exact H. Qed.
 
-  Lemma kind_eqb_eq a b : kind_eqb a b = true <-> a = b.
-  Proof. destruct a, b; cbn; split; congruence. Qed.
+  (* an abstract outcome covers a concrete exit kind and net change *)
+  Definition covers (o : aout) (k : kind) (dl : Z) : Prop :=
+    ak o = k /\ lo o <= dl /\ match hi o with Some h => dl <= h | None => True end.
+  Definition covered (x : summ) (k : kind) (dl : Z) : Prop := exists o, In o x /\ covers o k dl.
 
-  Lemma seq_summ_exit x y k dl : k <> KNorm -> In (k, dl) x -> In (k, dl) (seq_summ x y).
-  Proof. intros Hk Hi. unfold seq_summ. apply in_or_app. left. apply filter_In. split; [exact Hi|].
-    cbn. destruct k; try reflexivity. congruence. Qed.
+  Lemma is_zero_covers o k dl : is_zero o = true -> covers o k dl -> dl = 0.
+  Proof. unfold is_zero, covers. intros H (_ & H1 & H2). apply andb_true_iff in H. destruct H as [Ha Hb].
+    apply Z.eqb_eq in Ha. destruct (hi o) as [h|]; [|discriminate]. apply Z.eqb_eq in Hb. lia. Qed.
 
-  Lemma seq_summ_go x y d1 k d2 : In (KNorm, d1) x -> In (k, d2) y -> In (k, d1 + d2) (seq_summ x y).
-  Proof. intros H1 H2. unfold seq_summ. apply in_or_app. right. apply in_flat_map.
-    exists (KNorm, d1). split; [exact H1|]. cbn. apply in_map_iff. exists (k, d2). split; [reflexivity | exact H2]. Qed.
+  Lemma exact_covered k dl : covered [mk k dl (Some dl)] k dl.
+  Proof. exists (mk k dl (Some dl)). split; [left; reflexivity|]. unfold covers; cbn. repeat split; lia. Qed.
+
+  Lemma seq_summ_exit x y k dl : k <> KNorm -> covered x k dl -> covered (seq_summ x y) k dl.
+  Proof. intros Hk (o & Hi & Hc). exists o. split; [|exact Hc]. unfold seq_summ. apply in_or_app. left.
+    apply filter_In. split; [exact Hi|]. destruct Hc as (Hak & _). rewrite Hak. destruct k; try reflexivity. congruence. Qed.
+
+  Lemma seq_summ_go x y d1 k d2 : covered x KNorm d1 -> covered y k d2 -> covered (seq_summ x y) k (d1 + d2).
+  Proof. intros (o1 & H1 & Ha1 & Hl1 & Hh1) (o2 & H2 & Ha2 & Hl2 & Hh2).
+    exists (mk (ak o2) (lo o1 + lo o2) (hi_add (hi o1) (hi o2))). split.
+    - unfold seq_summ. apply in_or_app. right. apply in_flat_map. exists o1. split; [exact H1|].
+      rewrite Ha1. cbn. apply in_map_iff. exists o2. split; [reflexivity | exact H2].
+    - unfold covers; cbn. repeat split; [exact Ha2 | lia |].
+      destruct (hi o1), (hi o2); cbn; try exact I. lia. Qed.
 
   (* soundness of the summary w.r.t. every terminating execution *)
   Lemma summ_sound :
     (forall s d r, exec_stmt s d r -> forall x, summ_stmt s = Some x ->
-        match r with R k d' => In (k, d' - d) x end) /\
+        match r with R k d' => covered x k (d' - d) end) /\
     (forall b d r, exec_blk b d r -> forall x, summ_blk b = Some x ->
-        match r with R k d' => In (k, d' - d) x end).
+        match r with R k d' => covered x k (d' - d) end).
   Proof. apply exec_mutind; intros.
-    - inversion H; subst. left. f_equal. lia.
-    - inversion H; subst. left. f_equal. lia.
+    - inversion H; subst. replace (d + 1 - d) with 1 by lia. apply exact_covered.
+    - inversion H; subst. replace (d - 1 - d) with (-1) by lia. apply exact_covered.
     - (* call *) inversion H0; subst. pose proof (body_ok f l) as Hok. unfold fun_ok in Hok.
       destruct (summ_blk (body f)) as [y|] eqn:Ey; [|discriminate].
-      specialize (H y eq_refl). rewrite forallb_forall in Hok. specialize (Hok _ H). cbn in Hok.
-      left. f_equal. destruct o as [->| ->]; apply Z.eqb_eq in Hok; lia.
-    - inversion H; subst. left. f_equal. lia.
-    - inversion H; subst. left. f_equal. lia.
-    - inversion H; subst. left. f_equal. lia.
+      destruct (H y eq_refl) as (o1 & Hi & Hc). rewrite forallb_forall in Hok. specialize (Hok _ Hi).
+      assert (Hz : d' - d = 0).
+      { destruct Hc as (Hak & Hrest). rewrite Hak in Hok.
+        destruct o as [->| ->]; eapply is_zero_covers; try exact Hok; (split; [exact Hak | exact Hrest]). }
+      rewrite Hz. apply exact_covered.
+    - inversion H; subst. replace (d - d) with 0 by lia. apply exact_covered.
+    - inversion H; subst. replace (d - d) with 0 by lia. apply exact_covered.
+    - inversion H; subst. replace (d - d) with 0 by lia. apply exact_covered.
+    - (* leak *) inversion H; subst. exists (mk KNorm 0 None). split; [left; reflexivity|].
+      unfold covers; cbn. repeat split; lia.
     - cbn in H0. destruct (summ_blk a) as [xa|]; [|discriminate]. destruct (summ_blk b) as [xb|]; [|discriminate].
-      inversion H0; subst. destruct r. apply in_or_app. left. apply (H xa eq_refl).
+      inversion H0; subst. destruct r. destruct (H xa eq_refl) as (o & Hi & Hc). exists o. split; [apply in_or_app; left; exact Hi | exact Hc].
     - cbn in H0. destruct (summ_blk a) as [xa|]; [|discriminate]. destruct (summ_blk b) as [xb|]; [|discriminate].
-      inversion H0; subst. destruct r. apply in_or_app. right. apply (H xb eq_refl).
+      inversion H0; subst. destruct r. destruct (H xb eq_refl) as (o & Hi & Hc). exists o. split; [apply in_or_app; right; exact Hi | exact Hc].
     - cbn in H. destruct (summ_blk b) as [xb|]; [|discriminate]. destruct (loop_ok xb); [|discriminate].
-      inversion H; subst. left. f_equal. lia.
+      inversion H; subst. exists (mk KNorm 0 (Some 0)). split; [left; reflexivity|]. unfold covers; cbn. repeat split; lia.
     - (* loop iteration *) pose proof H1 as H1'. cbn in H1. destruct (summ_blk b) as [xb|] eqn:Eb; [|discriminate].
       destruct (loop_ok xb) eqn:El; [|discriminate]. inversion H1; subst.
-      specialize (H xb eq_refl). unfold loop_ok in El. rewrite forallb_forall in El. specialize (El _ H). cbn in El.
-      assert (d' = d) by (destruct o as [->| ->]; apply Z.eqb_eq in El; lia). subst d'.
-      apply (H0 _ H1').
+      destruct (H xb eq_refl) as (o1 & Hi & Hc). unfold loop_ok in El. rewrite forallb_forall in El. specialize (El _ Hi).
+      assert (d' = d).
+      { destruct Hc as (Hak & Hrest). rewrite Hak in El.
+        assert (d' - d = 0); [|lia].
+        destruct o as [->| ->]; eapply is_zero_covers; try exact El; (split; [exact Hak | exact Hrest]). }
+      subst d'. apply (H0 _ H1').
     - cbn in H0. destruct (summ_blk b) as [xb|] eqn:Eb; [|discriminate]. destruct (loop_ok xb); [|discriminate].
-      inversion H0; subst. specialize (H xb eq_refl). right. apply in_flat_map. exists (KBrk, d' - d).
-      split; [exact H | left; reflexivity].
+      inversion H0; subst. destruct (H xb eq_refl) as (o & Hi & Hak & Hl & Hh).
+      exists (mk KNorm (lo o) (hi o)). split.
+      + right. apply in_flat_map. exists o. split; [exact Hi|]. rewrite Hak. left; reflexivity.
+      + unfold covers; cbn. repeat split; assumption.
     - cbn in H0. destruct (summ_blk b) as [xb|] eqn:Eb; [|discriminate]. destruct (loop_ok xb); [|discriminate].
-      inversion H0; subst. specialize (H xb eq_refl). right. apply in_flat_map. exists (KRet, d' - d).
-      split; [exact H | left; reflexivity].
-    - inversion H; subst. left. f_equal. lia.
+      inversion H0; subst. destruct (H xb eq_refl) as (o & Hi & Hak & Hl & Hh).
+      exists (mk KRet (lo o) (hi o)). split.
+      + right. apply in_flat_map. exists o. split; [exact Hi|]. rewrite Hak. left; reflexivity.
+      + unfold covers; cbn. repeat split; assumption.
+    - (* restore *) cbn in H0. destruct (summ_blk b) as [xb|] eqn:Eb; [|discriminate]. inversion H0; subst.
+      destruct (H xb eq_refl) as (o & Hi & Hak & Hl & Hh).
+      exists (mk (ak o) (Z.min (lo o) 0) (Some (match hi o with Some h => Z.min h 0 | None => 0 end))). split.
+      + unfold restore_summ. apply in_map_iff. exists o. split; [reflexivity | exact Hi].
+      + unfold covers; cbn. repeat split; [exact Hak | lia |]. destruct (hi o); lia.
+    - inversion H; subst. replace (d - d) with 0 by lia. apply exact_covered.
     - cbn in H1. destruct (summ_stmt s) as [xs|]; [|discriminate]. destruct (summ_blk r) as [xr|]; [|discriminate].
       inversion H1; subst. specialize (H xs eq_refl). specialize (H0 xr eq_refl). destruct x as [k d2].
       replace (d2 - d) with ((d' - d) + (d2 - d')) by lia. apply seq_summ_go; assumption.
@@ -98,18 +130,25 @@ Section Sem.
     (f < length funs)%nat -> exec_blk (body f) d (R k d') -> (k = KNorm \/ k = KRet) /\ d' = d.
   Proof. intros Hf He. pose proof (body_ok f Hf) as Hok. unfold fun_ok in Hok.
     destruct (summ_blk (body f)) as [y|] eqn:Ey; [|discriminate].
-    pose proof (proj2 summ_sound _ _ _ He y Ey) as Hin. cbn in Hin.
-    rewrite forallb_forall in Hok. specialize (Hok _ Hin). cbn in Hok.
-    destruct k; try discriminate; apply Z.eqb_eq in Hok; split; try lia; tauto. Qed.
+    destruct (proj2 summ_sound _ _ _ He y Ey) as (o & Hi & Hc).
+    rewrite forallb_forall in Hok. specialize (Hok _ Hi).
+    pose proof Hc as (Hak & _). rewrite Hak in Hok.
+    destruct k; try discriminate; (split; [tauto|]);
+      (assert (d' - d = 0) by (eapply is_zero_covers; eassumption)); lia. Qed.
 End Sem.
 
-(* non-vacuity / sanity: a leaking early return is rejected, the repaired shape accepted *)
+(* non-vacuity / sanity: a leaking early return is rejected, the repaired shape accepted;
+   a Lua call that may leak is accepted only inside Restore *)
 Example leak_rejected :
   check_all [Cons Push (Cons (If2 (Cons Ret Nil) Nil) (Cons Pop Nil))] = false.
 Proof. reflexivity. Qed.
 Example repaired_accepted :
   check_all [Cons Push (Cons (If2 (Cons Pop (Cons Ret Nil)) Nil) (Cons (Loop (Cons (Call 0) Nil)) (Cons Pop Nil)))] = true.
 Proof. reflexivity. Qed.
+Example lua_call_needs_restore :
+  check_all [Cons Push (Cons Leak (Cons Pop Nil))] = false /\
+  check_all [Cons (Restore (Cons Push (Cons Leak Nil))) Nil] = true.
+Proof. split; reflexivity. Qed.
 Example exec_example :
   exec_blk [Cons Push (Cons Pop Nil)] (Cons (Call 0) Nil) 5 (R KNorm 5).
 Proof. eapply E_cons_go; [|apply E_nil]. eapply E_call with (k := KNorm); [cbn; lia | | left; reflexivity].
